@@ -11,13 +11,17 @@
  *                N<k>     one call, len = -k   (k >= 2: size error)
  *                c<a,b,…> split at the offsets; the last chunk includes the terminating NUL
  *                k<a,b,…> split at the offsets; no NUL (ends in `continue` unless an error comes first)
+ *                         (offsets 0, |text| and repeated offsets give EMPTY chunks: calls with len == 0)
+ *                h<item,…> free-form call history, every call is made (also after success: next document;
+ *                         after an error the tokener is reset): a:b slice, a:bz slice+NUL, a:bm slice
+ *                         NUL-terminated with len=-1, n<k> len=-k, r json_tokener_reset
  *        fault:  0 none, 1 duplocale fails with ENOMEM, 2 newlocale fails
  *   S <jvtext> <flags>      json_object_to_json_string_ext
  *   G <hexstring>           json_object_get_double(json_object_new_string(...))
  *   F <16 hex digits>       the libc oracle itself: snprintf("%.17g") of the double with these bits
  *                           (validates the hypothesis of C14_ser_locale_indep; the modes DO differ here)
  * Observation, per mode:  <mode> <data…> H<0/1> D<0/1> F<0/1> L<n> sep=<hex>
- *   P data: <err,err,…> <parse_end> <tree dump|-> <ncalls>
+ *   P data: <err,err,…> <parse_end of the last call> <tree dumps joined by ';' |-> <ncalls>
  *   S data: <hex of the text>        G data: d<bits>:<errno>       F data: <hex of the text>
  *   H  uselocale((locale_t)0) handle identical before/after every call
  *   D  localeconv()->decimal_point identical before/after every call
@@ -177,80 +181,118 @@ static const char *err_name(enum json_tokener_error e)
 #define MAXCH 64
 static const char MODES[3] = { 'C', 'G', 'T' };
 
+/* one call of a history */
+struct call { size_t lo, hi; int kind; long k; };   /* kind: 0 len=hi-lo, 1 +NUL (len+1), 2 NUL-terminated len=-1, 3 len=-k, 4 reset */
+
 /* one mode of a P case; returns the data string (malloc'd) */
 static char *parse_mode(char m, const unsigned char *text, size_t n, int flags, int depth, const char *chunks,
                         int fault, struct inv *v, long *leak)
 {
 	struct json_tokener *tok = json_tokener_new_ex(depth);
-	size_t cuts[MAXCH + 2], ncuts = 0, i;
+	struct call calls[MAXCH + 2];
+	size_t ncl = 0, i;
 	char errs[MAXCH * 20 + 64];
-	char *out = NULL, *dump = NULL; size_t outn = 0;
-	FILE *mem;
-	struct json_object *o = NULL;
-	int ncalls = 0, with_nul = 0;
+	char *out = NULL, *vals = NULL; size_t outn = 0, valsn = 0;
+	FILE *mem, *vmem;
+	int ncalls = 0, nvals = 0, history = 0;
 	size_t end = 0;
 	errs[0] = 0;
 	inv_init(v);
 	if (!tok) return strdup("NEWFAIL - - 0");
 	json_tokener_set_flags(tok, flags);
 	if (chunks[0] == 'c' || chunks[0] == 'k') {
+		/* cut offsets; 0, n and repeated offsets are allowed and give EMPTY chunks (len == 0) */
 		const char *p = chunks + 1;
-		with_nul = chunks[0] == 'c';
-		cuts[ncuts++] = 0;
-		while (*p && ncuts < MAXCH) {
+		size_t prev = 0;
+		while (*p && ncl < MAXCH) {
 			size_t c = (size_t)strtoul(p, (char **)&p, 10);
 			if (c > n) c = n;
-			if (c >= cuts[ncuts - 1]) cuts[ncuts++] = c;
+			if (c >= prev) { calls[ncl].lo = prev; calls[ncl].hi = c; calls[ncl].kind = 0; ncl++; prev = c; }
 			if (*p == ',') p++;
 		}
-		cuts[ncuts] = n;
+		calls[ncl].lo = prev; calls[ncl].hi = n; calls[ncl].kind = chunks[0] == 'c' ? 1 : 0; ncl++;
+	} else if (chunks[0] == 'h') {
+		/* free-form call history: a:b | a:bz (+NUL) | a:bm (len=-1) | n<k> (len=-k) | r (reset); every call is made;
+		 * after an error outcome the tokener is reset (as the API requires) */
+		const char *p = chunks + 1;
+		history = 1;
+		while (*p && ncl < MAXCH) {
+			struct call c = { 0, 0, 0, 0 };
+			if (*p == 'r') { c.kind = 4; p++; }
+			else if (*p == 'n') { c.kind = 3; c.k = strtol(p + 1, (char **)&p, 10); c.hi = n; }
+			else {
+				c.lo = (size_t)strtoul(p, (char **)&p, 10);
+				if (*p == ':') p++;
+				c.hi = (size_t)strtoul(p, (char **)&p, 10);
+				if (c.hi > n) c.hi = n;
+				if (c.lo > c.hi) c.lo = c.hi;
+				if (*p == 'z') { c.kind = 1; p++; } else if (*p == 'm') { c.kind = 2; p++; }
+			}
+			calls[ncl++] = c;
+			if (*p == ',') p++;
+		}
+	} else {
+		calls[0].lo = 0; calls[0].hi = n;
+		calls[0].kind = chunks[0] == 'Z' ? 2 : chunks[0] == 'N' ? 3 : 0;
+		calls[0].k = chunks[0] == 'N' ? atol(chunks + 1) : 0;
+		ncl = 1;
 	}
+	vmem = open_memstream(&vals, &valsn);
 	lc_created = lc_freed = lc_free_null = 0;
 	lc_fault = fault;
 	enter_mode(m);
-	if (ncuts == 0) {
+	for (i = 0; i < ncl; i++) {
 		struct snap a;
+		size_t len = calls[i].hi - calls[i].lo;
 		unsigned char *b;
-		int len;
-		if (chunks[0] == 'Z') { b = (unsigned char *)malloc(n + 1); memcpy(b, text, n); b[n] = 0; len = -1; }
-		else { b = (unsigned char *)malloc(n ? n : 1); memcpy(b, text, n); len = chunks[0] == 'N' ? -atoi(chunks + 1) : (int)n; }
+		struct json_object *o;
+		enum json_tokener_error e;
+		int clen;
+		if (calls[i].kind == 4) {
+			take(&a);
+			json_tokener_reset(tok);
+			inv_check(v, &a, m);
+			if (errs[0]) strcat(errs, ",");
+			strcat(errs, "reset");
+			continue;
+		}
+		/* exact-size heap copy: ASan sees any read beyond the given length */
+		b = (unsigned char *)malloc(len + 1);
+		memcpy(b, text + calls[i].lo, len);
+		clen = (int)len;
+		if (calls[i].kind == 1) { b[len] = 0; clen = (int)len + 1; }
+		else if (calls[i].kind == 2) { b[len] = 0; clen = -1; }
+		else if (calls[i].kind == 3) { b[len] = 0; clen = (int)-calls[i].k; }
+		else if (len == 0) { free(b); b = (unsigned char *)malloc(1); }
+		else { unsigned char *e2 = (unsigned char *)malloc(len); memcpy(e2, b, len); free(b); b = e2; }
 		take(&a);
-		o = json_tokener_parse_ex(tok, (char *)b, len);
+		o = json_tokener_parse_ex(tok, (char *)b, clen);
 		inv_check(v, &a, m);
 		free(b);
-		ncalls = 1;
-		strcat(errs, err_name(json_tokener_get_error(tok)));
+		ncalls++;
+		e = json_tokener_get_error(tok);
+		if (errs[0]) strcat(errs, ",");
+		strcat(errs, err_name(e));
 		end = json_tokener_get_parse_end(tok);
-	} else {
-		for (i = 0; i < ncuts; i++) {
-			struct snap a;
-			size_t lo = cuts[i], hi = cuts[i + 1], len = hi - lo;
-			int last = (i + 1 == ncuts);
-			unsigned char *b = (unsigned char *)malloc(len + 1);
-			enum json_tokener_error e;
-			memcpy(b, text + lo, len);
-			if (last && with_nul) b[len++] = 0;
-			take(&a);
-			o = json_tokener_parse_ex(tok, (char *)b, (int)len);
-			inv_check(v, &a, m);
-			free(b);
-			ncalls++;
-			e = json_tokener_get_error(tok);
-			if (errs[0]) strcat(errs, ",");
-			strcat(errs, err_name(e));
-			end = json_tokener_get_parse_end(tok);
-			if (e != json_tokener_continue) break;
+		if (o) {
+			/* dump after leaving the mode would be cleaner; jv_dump prints integers and hex only */
+			char *d = dump_to_string(o);
+			fprintf(vmem, "%s%s", nvals ? ";" : "", d);
+			free(d);
+			nvals++;
+			json_object_put(o);
 		}
+		if (!history && e != json_tokener_continue) break;
+		if (history && e != json_tokener_continue && e != json_tokener_success) json_tokener_reset(tok);
 	}
 	leave_mode(m);
 	lc_fault = 0;
 	*leak = lc_created - lc_freed + 1000 * lc_free_null;
-	if (o) dump = dump_to_string(o);
+	fclose(vmem);
 	mem = open_memstream(&out, &outn);
-	fprintf(mem, "%s %zu %s %d", errs, end, o ? dump : "-", ncalls);
+	fprintf(mem, "%s %zu %s %d", errs, end, nvals ? vals : "-", ncalls);
 	fclose(mem);
-	free(dump);
-	if (o) json_object_put(o);
+	free(vals);
 	json_tokener_free(tok);
 	return out;
 }
